@@ -49,9 +49,9 @@ func (a *klAdapter) lock(r klRound) {
 	case a.tl != nil:
 		a.tl.RLock(r.Keys[0])
 	case r.Write:
-		a.l.Lock(r.Keys[0])
+		a.l.Lock(hx.KeyOf(r.Keys[0]))
 	default:
-		a.l.RLock(r.Keys[0])
+		a.l.RLock(hx.KeyOf(r.Keys[0]))
 	}
 }
 
@@ -66,9 +66,9 @@ func (a *klAdapter) unlock(r klRound) {
 	case a.tl != nil:
 		a.tl.RUnlock(r.Keys[0])
 	case r.Write:
-		a.l.Unlock(r.Keys[0])
+		a.l.Unlock(hx.KeyOf(r.Keys[0]))
 	default:
-		a.l.RUnlock(r.Keys[0])
+		a.l.RUnlock(hx.KeyOf(r.Keys[0]))
 	}
 }
 
@@ -83,7 +83,7 @@ func (a *klAdapter) counts(k int) (int, int, bool) {
 	if a.tl != nil {
 		return keylock.VerifTKeyCounts[int](a.tl, k)
 	}
-	return keylock.VerifKeyCounts(a.l, k)
+	return keylock.VerifKeyCounts(a.l, hx.KeyOf(k))
 }
 
 func newKL(variant string, prime uint64) *klAdapter {
